@@ -2,7 +2,8 @@
 (***************************************************************************)
 (* The scanner's include stack (C15, and the include clause of C14).       *)
 (*                                                                         *)
-(* Files are sequences of items, one item per line: a token, an include of *)
+(* Files are sequences of items, one item per line: a token, a quoted       *)
+(* string standing alone, an include of                                    *)
 (* a present file or of the absent name, an include without a quoted name  *)
 (* (followed on its line by one token, which the directive consumes), or a *)
 (* bare include as the very last item of a file.  The state machine        *)
@@ -19,7 +20,7 @@ Absent == "z"
 \* "wellformed": only tokens and includes of present files (the include layouts of C14)
 WellFormedOnly == IOEnv.INCKIND = "wellformed"
 Items == IF WellFormedOnly THEN {[k |-> "tok"]} \cup {[k |-> "inc", f |-> x] : x \in Files}
-         ELSE {[k |-> "tok"]} \cup {[k |-> "inc", f |-> x] : x \in Files \cup {Absent}} \cup {[k |-> "incbad"], [k |-> "incend"]}
+         ELSE {[k |-> "tok"], [k |-> "str"]} \cup {[k |-> "inc", f |-> x] : x \in Files \cup {Absent}} \cup {[k |-> "incbad"], [k |-> "incend"]}
 \* a bare include may only be the last item of its file
 WellFormed(c) == \A i \in DOMAIN c : c[i].k = "incend" => i = Len(c)
 Contents == {c \in UNION {[1..n -> Items] : n \in 0..MaxItems} : WellFormed(c)}
@@ -44,7 +45,9 @@ AtItem == stk # <<>> /\ Top.pos <= Len(fs[Top.f])
 Keep == UNCHANGED <<fs, main, done>> /\ steps' = steps + 1
 
 PopEOF == ~done /\ stk # <<>> /\ Top.pos > Len(fs[Top.f]) /\ stk' = SubSeq(stk, 1, Len(stk) - 1) /\ UNCHANGED <<out, errs, reqs>> /\ Keep
-EmitTok == ~done /\ AtItem /\ Cur.k = "tok" /\ stk' = Adv /\ out' = Append(out, [f |-> Top.f, l |-> Top.pos]) /\ UNCHANGED <<errs, reqs>> /\ Keep
+\* an ordinary token, or a quoted string that is not the operand of an include (it is a token like any other, also when the file
+\* included just before ended in a bare include)
+EmitTok == ~done /\ AtItem /\ Cur.k \in {"tok", "str"} /\ stk' = Adv /\ out' = Append(out, [f |-> Top.f, l |-> Top.pos, k |-> Cur.k]) /\ UNCHANGED <<errs, reqs>> /\ Keep
 IncludeNoName == ~done /\ AtItem /\ Cur.k \in {"incbad", "incend"} /\ stk' = Adv
                  /\ errs' = Append(errs, [t |-> "EXPECTED_FILENAME", f |-> Top.f, l |-> Top.pos]) /\ UNCHANGED <<out, reqs>> /\ Keep
 IncludeMissing == ~done /\ AtItem /\ Cur.k = "inc" /\ Cur.f \notin DOMAIN fs /\ stk' = Adv
